@@ -447,6 +447,8 @@ def case_text(case):
     js = case.get("json", JSON_DEFAULT)
     if js:
         ls.append("json " + " ".join(f"{lv}:{st}" for lv, st in js))
+    for rg in case.get("regram") or []:     # D130 family: grammar-setting calls after the final request, no start_utt
+        ls.append("regram " + rg[0] + " " + " ".join(hx(x) for x in rg[1:3]))
     ls.append("run")
     return "\n".join(ls) + "\n"
 
@@ -990,6 +992,143 @@ def run_synth(c, synths, stats, label):
     return bad
 
 
+# ---- D130 family: the search is replaced (or the replacement refused) between two requests, without decoder_start_utt
+REGRAM_OK = {
+    "goforward": {"text": ["go backward", "ten meters", "go forward ten meters", "stop"],
+                  "jsgf": ["#JSGF V1.0; grammar h; public <h> = go backward;",
+                           "#JSGF V1.0; grammar h; public <h> = (stop | go) [forward | backward];"],
+                  "fsg": ["go backward two meters", "forward", "go forward ten meters"]},
+    "austen8k": {"text": ["she was not", "he was not an ill disposed young man"],
+                 "jsgf": ["#JSGF V1.0; grammar h; public <h> = she was an old woman;"],
+                 "fsg": ["young man", "he was"]},
+    "goforward_fr": {"text": ["recule", "avance de dix mètres"],
+                     "jsgf": ["#JSGF V1.0; grammar h; public <h> = recule de cinq mètres;"],
+                     "fsg": ["recule de dix"]},
+}
+REGRAM_BAD = {"text": ["go zzqxunknownword ten", "zzqxunknownword"],
+              "jsgf": ["#JSGF V1.0; grammar h; public <h> = go zzqxunknownword;", "this is not a grammar", "#JSGF V1.0; grammar h; public <h> = ( go ;"],
+              "fsg": ["go zzqxunknownword", "zzqxunknownword"],
+              "addword": [["zzrw", "F UW QQ"], ["zzrw", "NOTAPHONE"], ["go", "G OW"]]}
+
+
+def gen_regram_case(rng, i, tier, stats):
+    """final result -> 1..3 grammar-setting calls (accepted: the search is replaced / re-initialised; refused: nothing
+    changes), each followed by an alignment request + decoder_result_json, never a decoder_start_utt in between"""
+    an = rng.weighted([("goforward", 70), ("austen8k", 18), ("goforward_fr", 12)])
+    path, skip, total, model, extra = AUDIO[an]
+    cfg = dict(extra)
+    start, n = (0, total) if rng.chance(0.6) else (0, rng.range(total // 3, total))
+    gk = rng.weighted([("text", 65), ("jsgf", 35)])
+    gram = rng.choice(TEXTS[an][:4]) if gk == "text" else rng.choice(JSGF[an])
+    mode = rng.weighted([("stream", 40), ("full", 40), ("nosearch", 10), ("nogrow", 10)])
+    if rng.chance(0.3):
+        cfg["bestpath"] = "no"
+    pat = rng.weighted([("accepted", 40), ("refused", 20), ("refused-accepted", 15), ("accepted-refused", 10),
+                        ("accepted-accepted", 5), ("refused-accepted-refused", 10)])
+    evs = []
+    for j, what in enumerate(pat.split("-")):
+        kind = rng.weighted([("text", 35), ("jsgf", 25), ("fsg", 20), ("addword", 20)]) if model == "en-us" else \
+            rng.weighted([("text", 45), ("jsgf", 30), ("fsg", 25)])
+        if what == "accepted":
+            ev = [kind, f"zzrw{rng.below(10 ** 9)}", "F UW B"] if kind == "addword" else [kind, rng.choice(REGRAM_OK[an][kind])]
+        else:
+            ev = [kind] + list(rng.choice(REGRAM_BAD[kind])) if kind == "addword" else [kind, rng.choice(REGRAM_BAD[kind])]
+        evs.append(ev + [what] if len(ev) == 3 else ev + ["", what])
+        k = f"regram {what} {kind}"
+        stats["extra"][k] = stats["extra"].get(k, 0) + 1
+    stats["extra"]["regram pattern " + pat] = stats["extra"].get("regram pattern " + pat, 0) + 1
+    utts = []
+    if n < total and rng.chance(0.3):
+        utts.append([str(path), skip, rng.range(0, total - n), n])
+    return {"id": f"rg{i}", "model": model, "cfg": cfg, "gram": [gk, gram], "audio": [str(path), skip, start, n],
+            "chunkseq": [], "utts": utts, "preend": int(rng.chance(0.2)), "addwords": [], "noise": None, "tmatskip": 0,
+            "audio_name": an, "mode": mode, "chunk": rng.choice([2048, 4096, 16000]), "partials": [], "early": 0,
+            "dumpsen": 0, "regram": [[e[0], e[1]] + ([e[2]] if e[2] else []) for e in evs],
+            "regram_expect": [e[3] for e in evs]}
+
+
+def block_fp(b):
+    return [l for l in b if l.startswith("FP ")]
+
+
+def block_words(b):
+    return [l.split()[2:6] for l in b if l.startswith("W ")]
+
+
+def judge_regram(case, blocks, stats):
+    """D130 oracle over the request sequence of one case: after an ACCEPTED grammar-setting call (tag ...swapped) the
+    decoder has no result until it decodes again — an alignment handed out then (or a decoder_result_json line with a
+    nested word list) describes a result that no longer exists; whenever an alignment is returned its words must be the
+    dictionary words of the CURRENT decoder_seg_iter.  After a REFUSED call (tag ...refused) nothing may have changed:
+    first-pass segmentation, NULL/non-NULL and the word list are those of the previous request."""
+    probs = []
+    exp = list(case.get("regram_expect") or [])
+    prev = None
+    k = 0
+    for b in blocks:
+        tag = b[0].split()[2]
+        if not (tag.endswith("swapped") or tag.endswith("refused")):
+            prev = b
+            continue
+        rg = next((l.split() for l in b if l.startswith("RG ")), None)
+        a = next((l for l in b if l.startswith("A ")), "A ?")
+        reuse = next((l.split()[1] for l in b if l.startswith("REUSE ")), None)
+        got_al = a.startswith("A ok") or reuse == "nonnull-after-null"
+        what = "accepted" if tag.endswith("swapped") else "refused"
+        stats["extra"]["regram requests " + what] = stats["extra"].get("regram requests " + what, 0) + 1
+        if k < len(exp) and exp[k] != what:
+            probs.append({"what": f"generator drew a grammar-setting call expected to be {exp[k]}, the library {what} it "
+                                  "(family does not exercise what it claims)", "detail": {"tag": tag, "call": case["regram"][k]},
+                          "impl": False, "key": None, "tie": True})
+        call = {"call": (case.get("regram") or [[]] * (k + 1))[k] if k < len(case.get("regram") or []) else None, "tag": tag,
+                "RG(kind, rv, hyp!=NULL, seg_iter!=NULL)": rg[1:] if rg else None}
+        fpw = [l.split() for l in block_fp(b) if int(l.split()[1]) >= 0]
+        if got_al:
+            cur = [[w[1], w[3], str(int(w[4]) - int(w[3]) + 1)] for w in fpw]
+            words = [[w[0], w[2], w[3]] for w in block_words(b)]
+            if rg and rg[3] == "0" and rg[4] == "0":
+                stats["extra"]["regram alignment returned with no result"] = stats["extra"].get("regram alignment returned with no result", 0) + 1
+                probs.append({"what": "decoder_alignment returned an alignment although the decoder has no result: the search was "
+                                      f"replaced by an accepted grammar-setting call ({rg[1]}) after the last utterance and nothing was "
+                                      "decoded since (decoder_hyp and decoder_seg_iter return NULL) - the words are those of the "
+                                      "PREVIOUS search's result, not of the first-pass segmentation of the current one",
+                              "detail": {**call, "alignment_words(id,start,duration)": words[:12],
+                                         "current_first_pass": cur}, "impl": True, "key": None, "tie": False})
+            elif words != cur:
+                probs.append({"what": "decoder_alignment returned an alignment whose words are not the dictionary words of the "
+                                      "current first-pass segmentation (after a grammar-setting call without decoder_start_utt)",
+                              "detail": {**call, "alignment_words(id,start,duration)": words[:12], "current_first_pass": cur[:12]},
+                              "impl": True, "key": None, "tie": False})
+        if what == "accepted" and rg and rg[3] == "0" and rg[4] == "0":
+            for jl in (l.split() for l in b if l.startswith("J ")):
+                if int(jl[1]) > 0 and jl[6] != "null":
+                    probs.append({"what": "decoder_result_json with an alignment level returned a line with a nested word list "
+                                          "although the decoder has no result (search replaced, nothing decoded since)",
+                                  "detail": {**call, "json_call": f"decoder_result_json(d, {float.fromhex(jl[2])!r}, {jl[1]})",
+                                             "line": bytes.fromhex(jl[6]).decode(errors="replace")[:300]},
+                                  "impl": True, "key": None, "tie": False})
+                    break
+        if what == "refused" and prev is not None:
+            pa = next((l for l in prev if l.startswith("A ")), "A ?")
+            if block_fp(b) != block_fp(prev):
+                probs.append({"what": "a REFUSED grammar-setting call changed the first-pass result (decoder_seg_iter differs from "
+                                      "the previous request)", "detail": {**call, "before": block_fp(prev)[:8], "after": block_fp(b)[:8]},
+                              "impl": True, "key": None, "tie": False})
+            elif pa[:5] != a[:5] or block_words(b) != block_words(prev):
+                probs.append({"what": "a REFUSED grammar-setting call changed what decoder_alignment returns for the unchanged "
+                                      "result", "detail": {**call, "before": [pa, block_words(prev)[:8]], "after": [a, block_words(b)[:8]]},
+                              "impl": True, "key": None, "tie": False})
+            else:
+                stats["extra"]["regram refused: result and alignment unchanged"] = \
+                    stats["extra"].get("regram refused: result and alignment unchanged", 0) + 1
+        if what == "accepted" and not got_al:
+            stats["extra"]["regram accepted: no alignment for the vanished result"] = \
+                stats["extra"].get("regram accepted: no alignment for the vanished result", 0) + 1
+        prev = b
+        k += 1
+    return probs
+
+
 def new_stats():
     return {"extra": {}, "skip_probe": {}, "audio": {}, "clip": {}, "grammar": {}, "mode": {}, "cfg": {}, "requests": 0, "partial": 0, "final": 0,
             "alignments": 0, "null_results": 0, "null_no_words": 0, "null_circular_buffer": 0,
@@ -1035,6 +1174,8 @@ def evaluate(c, binp, cases, stats, label):
                 for b in r["blocks"]:
                     key = " ".join(b[0].split()[:3])
                     probs += judge_block(cs, b, dblocks.get(key), ci_names, stats)
+                if cs.get("regram"):
+                    probs = judge_regram(cs, r["blocks"], stats) + probs        # D130 oracle first: the concrete witness
                 if r["crash"]:
                     stats["crashes"] += 1
                     opn = r.get("open")
@@ -1202,6 +1343,12 @@ def check(c):
             stats["cfg"]["frate=" + cs["cfg"]["frate"]] = stats["cfg"].get("frate=" + cs["cfg"]["frate"], 0) + 1
     # scorer-configuration family (ds x topn x frame-count residues x final/partial), own stream, appended after the loop above
     cases += gen_scorer_cases(c.seed, c.tier, stats)
+    # D130 family: search replaced / replacement refused between two requests (own stream, own json draws)
+    rgrng = vlib.Rng(c.seed * 1000003 + 1300)
+    rgcases = [gen_regram_case(rgrng, i, c.tier, stats) for i in range(6 if c.tier == "quick" else 120)]
+    for cs in rgcases:
+        cs["json"] = gen_json(rgrng)
+    cases += rgcases
     ncases = len(cases)
     for cs in cases:        # configuration distribution of ALL generated cases: which scorer options are drawn at all
         for k in ("ds", "topn"):
